@@ -1557,3 +1557,115 @@ fn packed_args_cases(thorough: bool, f: &mut dyn FnMut(Case)) {
         }
     }
 }
+
+// ---- (m1) container re-entrancy beyond arity 2: every list.* / map.* / iterator.* entry point called on a
+//           list / map with 2-3 arguments one of which is a callback that reads or writes that same
+//           container (the arity-2 product is complete in the sweep; arity 3 is only sampled there) -------
+
+fn container_reentrancy_cases(eps: &[(String, String)], thorough: bool, f: &mut dyn FnMut(Case)) {
+    let l_cbs = [
+        "|x| size l", "|x| l.push 1", "|x| l.pop()", "|x| l.clear()", "|x| '{l}'", "|x| l.sort()", "|x| l[0]", "|x| l.resize 10, 0", "|a, b| l.push 1", "|a, b| size l",
+        "|x| l.iter().to_list()", "|x| l.insert 0, x", "|x| l.contains x", "|a, b| l.first() == a",
+    ];
+    let m_cbs = [
+        "|v| size m", "|v| m.insert 'd', v", "|v| m.remove 'a'", "|v| m.clear()", "|v| m.get 'a'", "|v| '{m}'", "|v| m.keys().to_list()", "|v| m.a", "|k, v| m.insert 'd', v", "|k, v| size m",
+        "|v| m.update 'a', |w| w", "|v| m.sort()", "|v| m.contains_key 'a'", "|v| m.extend {z: 1}",
+    ];
+    for (module, name) in eps {
+        let targets: &[(&str, &str, &[&str])] = match module.as_str() {
+            "list" => &[("l", "l = [3, 1, 2]\n", &l_cbs)],
+            "map" => &[("m", "m = {a: 1, b: 2, c: 3}\n", &m_cbs)],
+            "iterator" => &[("l", "l = [3, 1, 2]\n", &l_cbs), ("m", "m = {a: 1, b: 2, c: 3}\n", &m_cbs)],
+            _ => continue,
+        };
+        let api = vec![format!("{}.{}", module, name), "gen:container-reentrancy".to_string()];
+        for (c, pre, cbs) in targets {
+            let keys: Vec<&str> = if thorough { vec!["'a'", "'zz'", "0", "-1", "1", "100", "null", c, "(0..2)"] } else { vec!["'a'", "'zz'", "0", "-1", "null", c] };
+            let defaults = ["0", "null", c];
+            for cb in cbs.iter() {
+                let mut layouts: Vec<String> = vec![format!("{}, {}", cb, cb), format!("{}", cb)];
+                for k in &keys {
+                    layouts.push(format!("{}, {}", k, cb));
+                    layouts.push(format!("{}, {}", cb, k));
+                    for d in &defaults {
+                        layouts.push(format!("{}, {}, {}", k, d, cb));
+                    }
+                }
+                for args in layouts {
+                    let text = format!("{}r = {}.{}({})\nif koto.type(r) == 'Iterator'\n  r = r.take(20).to_tuple()\nsize {}\n", pre, c, name, args, c);
+                    f(Case { kind: 'R', text, group: "container-reentrancy", apis: api.clone() });
+                }
+            }
+        }
+    }
+}
+
+// ---- (m2) iterator invalidation: an iterator (every adaptor chain of depth 1-2) over a list / map, some
+//           values pulled from the front / back, THEN the container shrinks / grows / is reordered, then
+//           the iterator is advanced again in every way ---------------------------------------------------
+
+fn iterator_invalidation_cases(thorough: bool, f: &mut dyn FnMut(Case)) {
+    let api = vec!["gen:iterator-invalidation".to_string()];
+    let adaptors = [
+        ".iter()", ".reversed()", ".skip(1)", ".take(5)", ".each(|x| x)", ".keep(|x| true)", ".enumerate()", ".chunks(2)", ".windows(2)", ".zip(C)", ".chain(C)", ".cycle().take(20)",
+        ".intersperse(0)", ".peekable()", ".step(2)", ".flatten()", ".take(|x| true)", ".skip(|x| false)",
+    ];
+    let pulls = ["", "it.next()\n", "it.next_back()\n", "it.next()\nit.next_back()\n"];
+    let consumes = [
+        "it.next()", "it.next_back()", "it.to_list()", "it.to_tuple()", "it.count()", "it.last()", "it.reversed().to_tuple()", "it.min()", "it.fold 0, |a, b| a",
+        "(it.next(), it.next(), it.next(), it.next(), it.next(), it.next(), it.next())", "(it.next_back(), it.next_back(), it.next_back(), it.next_back(), it.next_back(), it.next_back(), it.next_back())",
+        "(it.next(), it.next_back(), it.next(), it.next_back(), it.next(), it.next_back(), it.next())", "for x in it\n  C.MUT0", "it.copy().to_tuple()", "'{it.to_tuple()}'",
+    ];
+    let containers: [(&str, &str, &[&str], &[&str]); 2] = [
+        (
+            "l",
+            "l = [1, 2, 3, 4, 5, 6]\n",
+            &[
+                "l.pop()", "l.pop()\nl.pop()\nl.pop()", "l.clear()", "l.remove 0", "l.resize 1", "l.resize 100, 0", "l.retain |x| x > 4", "l.push 9", "l.insert 0, 9", "l.sort()", "l.fill 0",
+                "l.extend [1, 2, 3]", "l.transform |x| x", "l.pop()\nl.pop()\nl.pop()\nl.pop()\nl.pop()",
+            ],
+            &[],
+        ),
+        (
+            "m",
+            "m = {a: 1, b: 2, c: 3, d: 4, e: 5, f: 6}\n",
+            &[
+                "m.remove 'f'", "m.remove 'a'", "m.clear()", "m.insert 'z', 1", "m.sort()", "m.extend {x: 1}", "m.update 'a', |v| v", "m.remove 'f'\nm.remove 'e'\nm.remove 'd'",
+                "m.remove 'f'\nm.remove 'e'\nm.remove 'd'\nm.remove 'c'\nm.remove 'b'",
+            ],
+            &[".keys()", ".values()"],
+        ),
+    ];
+    let mut n = 0usize;
+    for (c, pre, muts, extra_adaptors) in containers {
+        let first_mut = muts[0].split('\n').next().unwrap_or("").trim_start_matches(c).trim_start_matches('.').to_string();
+        let ads: Vec<&str> = adaptors.iter().chain(extra_adaptors.iter()).copied().collect();
+        let mut chains: Vec<String> = ads.iter().map(|a| a.to_string()).collect();
+        for a in &ads {
+            for b in &ads {
+                n += 1;
+                let key = [".reversed()", ".peekable()", ".keys()", ".values()"];
+                if thorough || key.contains(a) || key.contains(b) || n % 6 == 0 {
+                    chains.push(format!("{}{}", a, b));
+                }
+            }
+        }
+        for chain in &chains {
+            let chain = chain.replace('C', c);
+            for m in muts {
+                // the loop body changes the container under the running loop
+                f(Case { kind: 'R', text: format!("{}r = []\nfor x in {}{}\n  r.push x\n  {}\n  if size(r) > 50\n    break\nsize r\n", pre, c, chain, m.replace('\n', "\n  ")), group: "iterator-invalidation", apis: api.clone() });
+                for p in pulls {
+                    for cons in consumes {
+                        n += 1;
+                        if !thorough && !p.is_empty() && chain.matches('.').count() > 1 && n % 2 == 0 {
+                            continue;
+                        }
+                        let cons = cons.replace("C.MUT0", &format!("{}.{}", c, first_mut));
+                        f(Case { kind: 'R', text: format!("{}it = {}{}\n{}{}\nr = {}\nr\n", pre, c, chain, p, m, cons), group: "iterator-invalidation", apis: api.clone() });
+                    }
+                }
+            }
+        }
+    }
+}
